@@ -1,6 +1,6 @@
 SPECIFICATION Spec
 CONSTANTS
-  MaxScript = 8
+  MaxScript = 10
   MaxSpurious = 2
   FORWARD_WAKER = TRUE
   READY_DRAINS = TRUE
